@@ -74,7 +74,14 @@ func renderListing(funcs []function, i386 bool, table map[int]string, r *rand.Ra
 	addr := 0x401000
 	line := func(fn int, asm string) {
 		addr += 3
-		fmt.Fprintf(&b, "  file%d.go:%d\t\t0x%x\t\t%x\t\t%s\t\n", fn, 10+addr%90, addr, uint64(addr)*2654435761&0xffffffffff, asm)
+		loc := fmt.Sprintf("file%d.go", fn)
+		if r.Intn(250) == 0 {
+			// a very long source path: the line is some kilobytes long (well below the 64 KiB a line may have), so that the
+			// decisive text lies around a multiple of the 4096-byte read buffer
+			target := []int{4096, 4096, 8192, 12288, 16384, 32768, 20000, 50000}[r.Intn(8)] - 70 + r.Intn(90)
+			loc = "/src/" + strings.Repeat("very-long-directory-name/", target/25+1)[:target] + loc
+		}
+		fmt.Fprintf(&b, "  %s:%d\t\t0x%x\t\t%x\t\t%s\t\n", loc, 10+addr%90, addr, uint64(addr)*2654435761&0xffffffffff, asm)
 	}
 	trap := func() string {
 		if i386 {
